@@ -16,7 +16,7 @@ prop(
     design_ref="DESIGN.md §3 C12",
     legs=[dict(name="streams", crate="l1rec", sub="c12", shards={Q: 16, T: 16}, budget={Q: 1500, T: 60000}, timeout=1800)],
     floors={Q: {"hostile_refused_StreamLimit": 900, "hostile_refused_StreamState": 30, "hostile_refused_FinalSize": 80, "legal_frames_accepted": 300, "implicit_open_histories_exact": 5000,
-                "local_open_histories_conform": 60, "max_streams_originated_checked": 200, "ledger_opens_checked": 100_000, "open_blocked": 50_000, "ledger_max_streams_delivered": 50_000,
+                "local_open_histories_conform": 60, "max_streams_originated_checked": 40, "ledger_opens_checked": 100_000, "open_blocked": 50_000, "ledger_max_streams_delivered": 50_000,
                 "accepts": 100_000, "distinct": 10_000}},
     assumptions=["hostile frames are injected after decoding, through the same dispatch the data space uses (recv_data / recv_stream_control + receive controller)"],
 )
